@@ -287,9 +287,12 @@ Inductive column :=
 | ColVec2 (c1 : collref) (g1 : guard) (c2 : collref) (g2 : guard) (body : bexp)
     (* e.C1("b1")[.Where(p1)].Select(lambda o: e.C2("b2")[.Where(p2)].Select(lambda x: body)): one vector per passing
        element of the first collection (the second collection is retrieved inside the outer loop) *)
-| ColFlat (c1 : collref) (g1 : guard) (c2 : collref) (g2 : guard) (body : bexp).
+| ColFlat (c1 : collref) (g1 : guard) (c2 : collref) (g2 : guard) (body : bexp)
     (* e.C1("b1")[.Where(p1)].SelectMany(lambda o: e.C2("b2")[.Where(p2)]).Select(lambda x: body)  (or with the Select inside
        the SelectMany lambda): ONE vector, the second collection's values once per passing element of the first *)
+| ColFirstB (c : collref) (g : guard) (body : bexp) (line : string).
+    (* e.Coll("bank")[.Where(p)].Select(lambda x: body).First() with conditional expressions in the body: their variables are
+       declared and assigned for EVERY passing element (before the `if (is_first)`), the value is captured on the first *)
 Definition row := list (string * column).                      (* branch name, column *)
 
 Fixpoint ex_size (e : ex) : nat :=
@@ -303,6 +306,7 @@ Definition col_size (c : column) : nat :=
   match c with
   | ColScalar e => ex_size e | ColVec _ g body => 2 + gsize g + nifs body | ColFirst _ g _ _ => 3 + gsize g
   | ColVec2 _ g1 _ g2 body | ColFlat _ g1 _ g2 body => 4 + gsize g1 + gsize g2 + nifs body
+  | ColFirstB _ g body _ => 3 + gsize g + nifs body
   end.
 (* number of 2-D columns: each has one local vector, named after all class members *)
 Definition col_nts (c : column) : nat := match c with ColVec2 _ _ _ _ _ => 1 | _ => 0 end.
@@ -314,6 +318,7 @@ Definition col_type (c : column) : string :=
   | ColScalar e => ex_type e | ColVec _ _ body => vec_type (btype body) | ColFirst _ _ body _ => pa_type body
   | ColVec2 _ _ _ _ body => vec_type (vec_type (btype body))
   | ColFlat _ _ _ _ body => vec_type (btype body)
+  | ColFirstB _ _ body _ => btype body
   end.
 
 (* class variable of column k: unique_name(name, is_class_var=True) after all per-event names *)
@@ -358,6 +363,15 @@ Definition tflat_loop (idiom : string) (c1 : collref) (g1 : guard) (c2 : collref
        (loop_block (iv_name n) (c_arrow c1) g1 n [{| d_type := c_ctype c2; d_name := vcv_name c2 (c2_at n g1); d_init := None |}]
                    (tflat_inner idiom c2 g2 body mem (c2_at n g1))).
 
+(* First over a body with conditionals: the flag is named after the conditionals' variables *)
+Definition isfb_at (n : nat) (g : guard) (body : bexp) : nat := n + gsize g + nifs body.
+Definition tfirstb_loop (c : collref) (g : guard) (body : bexp) (mem : string) (n : nat) : stmt :=
+  SFor (iv_name n) (CDeref (CVar (vcv_name c n)))
+       (loop_block (iv_name n) (c_arrow c) g n (bdecls body (n + gsize g))
+                   (app_stmts (bpre (iv_name n) (c_arrow c) body (n + gsize g))
+                              (one_stmt (fi_capture (isf_name (isfb_at n g body)) []
+                                                    (one_stmt (SSet mem None (bx (iv_name n) (c_arrow c) body (n + gsize g)))))))).
+
 (* code of one column in the event block: declarations, statements, next index; ntk = index of the next local vector *)
 Definition tcol (idiom : string) (c : column) (mem : string) (ntk n : nat) : list decl * stmts * nat :=
   match c with
@@ -366,6 +380,11 @@ Definition tcol (idiom : string) (c : column) (mem : string) (ntk n : nat) : lis
        SCons (SFetch idiom (vcv_name c1 n) (c_ctype c1) (c_bank c1) (fetch_lines idiom (c_ctype c1) (c_bank c1)))
              (one_stmt (tvec2_loop idiom c1 g1 c2 g2 body mem (nt_name ntk) n)),
        n + (4 + gsize g1 + gsize g2 + nifs body))
+  | ColFirstB cr g body line =>
+      ([{| d_type := c_ctype cr; d_name := vcv_name cr n; d_init := None |}; fi_decl (isf_name (isfb_at n g body))],
+       SCons (SFetch idiom (vcv_name cr n) (c_ctype cr) (c_bank cr) (fetch_lines idiom (c_ctype cr) (c_bank cr)))
+             (SCons (tfirstb_loop cr g body mem n) (one_stmt (fi_throw (isf_name (isfb_at n g body)) line))),
+       n + (3 + gsize g + nifs body))
   | ColFlat c1 g1 c2 g2 body =>
       ([{| d_type := c_ctype c1; d_name := vcv_name c1 n; d_init := None |}],
        SCons (SFetch idiom (vcv_name c1 n) (c_ctype c1) (c_bank c1) (fetch_lines idiom (c_ctype c1) (c_bank c1)))
@@ -405,6 +424,7 @@ Fixpoint trow_sets (idiom : string) (r : row) (nf k n : nat) : stmts :=
       | ColVec _ g body => trow_sets idiom t nf (S k) (S (S n) + gsize g + nifs body)
       | ColFirst _ g _ _ => trow_sets idiom t nf (S k) (S (S (S n)) + gsize g)
       | ColVec2 _ g1 _ g2 body | ColFlat _ g1 _ g2 body => trow_sets idiom t nf (S k) (n + (4 + gsize g1 + gsize g2 + nifs body))
+      | ColFirstB _ g body _ => trow_sets idiom t nf (S k) (n + (3 + gsize g + nifs body))
       end
   end.
 Fixpoint trow_clears (r : row) (nf k : nat) : stmts :=
@@ -412,7 +432,7 @@ Fixpoint trow_clears (r : row) (nf k : nat) : stmts :=
   | [] => SNil
   | (name, c) :: t =>
       match c with
-      | ColScalar _ | ColFirst _ _ _ _ => trow_clears t nf (S k)
+      | ColScalar _ | ColFirst _ _ _ _ | ColFirstB _ _ _ _ => trow_clears t nf (S k)
       | ColVec _ _ _ | ColVec2 _ _ _ _ _ | ColFlat _ _ _ _ _ => SCons (SClear (mem_name name (nf + k))) (trow_clears t nf (S k))
       end
   end.
@@ -607,8 +627,28 @@ Fixpoint flat_loop (ev : event) (g1 : guard) (c2 : collref) (g2 : guard) (body :
                 end
               else flat_loop ev g1 c2 g2 body r acc
   end.
+(* First with conditionals: the conditions of the body are evaluated on every passing element, the value on the first *)
+Fixpoint firstb_loop (ev : event) (ty : string) (body : bexp) (ps : guard) (l : list value) (found : option value) : res (option value) :=
+  match l with
+  | [] => ROk found
+  | v :: r => rdo b <- gpasses ev v ps;
+              if b then rdo rs <- dconds ev v body;
+                        match found with
+                        | Some _ => firstb_loop ev ty body ps r found
+                        | None => rdo x <- dbx ev v body rs; firstb_loop ev ty body ps r (Some (conv ty x))
+                        end
+              else firstb_loop ev ty body ps r found
+  end.
 Definition dcol (ev : event) (c : column) : res value :=
   match c with
+  | ColFirstB cr ps body _ =>
+      match assoc_ss (c_ctype cr, c_bank cr) (ev_colls ev) with
+      | None => RFault FRetrieve
+      | Some (VVec l) => rdo o <- firstb_loop ev (btype body) body ps l None;
+                         match o with Some x => ROk x | None => RFault FThrow end
+      | Some VNull => RFault FNullDeref
+      | Some _ => RStuck (KType "the bank does not hold a collection")
+      end
   | ColFlat c1 g1 c2 g2 body =>
       match assoc_ss (c_ctype c1, c_bank c1) (ev_colls ev) with
       | None => RFault FRetrieve
@@ -814,6 +854,12 @@ Definition d_col (s : sexp) : option (string * column) :=
           Some (name, ColFlat {| c_base := base1; c_ctype := ct1; c_bank := bank1; c_arrow := a1 |} g1
                               {| c_base := base2; c_ctype := ct2; c_bank := bank2; c_arrow := a2 |} g2 b')
       | _, _, _, _, _ => None
+      end
+  | SList [SAtom name; SList [SAtom "firstb"; SAtom base; SAtom ct; SAtom bank; ar; SList ps; b; SAtom line]] =>
+      match d_bool ar, d_guard ps, d_bexp b with
+      | Some ar', Some ps', Some b' =>
+          Some (name, ColFirstB {| c_base := base; c_ctype := ct; c_bank := bank; c_arrow := ar' |} ps' b' line)
+      | _, _, _ => None
       end
   | SList [SAtom name; SList [SAtom "first"; SAtom base; SAtom ct; SAtom bank; ar; SList ps; b; SAtom line]] =>
       match d_bool ar, d_guard ps, d_pa b with
